@@ -332,6 +332,11 @@ def render_function(model, f, cxx):
     pre = "static " if f.get("static") else _attrs(f)
     if cxx and f.get("extern_c"):
         pre = 'extern "C" ' + pre
+    if f.get("ifunc"):
+        # GNU indirect function: the symbol has type STT_GNU_IFUNC and is bound to whatever the resolver returns
+        out.append("static void *%s_resolver(void) { return 0; }" % f["name"])
+        out.append(pre + fn_proto(model, f, cxx) + ' __attribute__((ifunc("%s_resolver")));' % f["name"])
+        return out
     out.append(pre + fn_proto(model, f, cxx))
     out.append("{")
     for k in range(body_salt % 3):
